@@ -179,6 +179,14 @@ def impl(case):
     return guarded(lambda: enc_distribution(ev.evaluate(votes, case['n'], prev_gains=prev, max_seats=caps), NAMES))
 
 
+def model_line(case):
+    """both Lean models are validated: the pool machine ('ha') and the sorted-list machine ('ha_list'), alternating"""
+    c = strip_case(case)
+    if int(case_key(case), 16) % 2:
+        c['op'] = 'ha_list'
+    return c
+
+
 def compare(case, iobs, mobs):
     a = canon(iobs)
     b = canon_dist(mobs)
